@@ -468,24 +468,49 @@ class Engine:
         return mk("phi", key)
 
     def join_states(self, frame, b, preds_states):
-        """preds_states: list of (pred id, state dict)"""
-        if len(preds_states) == 1:
+        """preds_states: list of (pred id, state dict).
+        At loop heads values are never merged structurally and a value that arrives only over a back edge is
+        wrapped in a phi: terms naming `the current element` of an iteration must not be confused with the
+        element of an earlier iteration (soundness of facts about loop elements)."""
+        if len(preds_states) == 1 and not (isinstance(b, int) and b in frame.cfg.loop_heads()):
             return dict(preds_states[0][1])
+        loop_head = isinstance(b, int) and b in self._loop_heads(frame)
         keys = set()
         for _, s in preds_states:
             keys.update(s.keys())
         out = {}
+        npreds = len(preds_states)
         for k in keys:
             inc = {}
             for p, s in preds_states:
                 v = s.get(k)
                 if v is not None:
                     inc[p] = v
+            if loop_head:
+                vals = list(inc.values())
+                same = all(v is vals[0] for v in vals[1:])
+                back_only = all(isinstance(p, int) and frame.cfg.dominates(b, p) for p in inc)
+                if same and not (back_only and npreds > len(inc)) and not (back_only and len(inc) == npreds and npreds == 1):
+                    out[k] = vals[0]
+                else:
+                    key = (frame.key, b, k)
+                    if PHI.get(key) != inc:
+                        PHI[key] = dict(inc)
+                        self.phi_changed = True
+                    out[k] = mk("phi", key)
+                continue
             if len(inc) == 1:
                 out[k] = next(iter(inc.values()))
             else:
                 out[k] = self.join_values((frame.key, b, k), inc)
         return out
+
+    def _loop_heads(self, frame):
+        lh = getattr(frame.cfg, "_lh", None)
+        if lh is None:
+            lh = set(frame.cfg.loop_heads())
+            frame.cfg._lh = lh
+        return lh
 
     # ---------------- frames ----------------
     def run_root(self, fn, args=None, state=None):
